@@ -686,6 +686,7 @@ func (w *World) Exec(a Action) {
 			if a.F {
 				st = raft.SnapshotFailure
 			}
+			w.mon.curReportTo = a.A
 			w.call(n, "reportsnap", nil, func() { n.rn.ReportSnapshot(a.A, st) })
 		}
 	case "repsnapq":
@@ -697,6 +698,7 @@ func (w *World) Exec(a Action) {
 				st = raft.SnapshotFailure
 			}
 			w.logf("reportsnapshot %d->%d fail=%v", n.id, to, a.F)
+			w.mon.curReportTo = to
 			w.call(n, "reportsnap", nil, func() { n.rn.ReportSnapshot(to, st) })
 		}
 	case "deliver":
